@@ -122,7 +122,7 @@ func (b *builder) get(race bool, toolchain string) (string, error) {
 		}
 		work := filepath.Join(b.dir, "go.work")
 		_ = os.WriteFile(work, []byte("go 1.23\n\nuse "+filepath.Join(verifRoot, "harness")+"\nuse "+repo+"\n"), 0o644)
-		cmd.Args = append(cmd.Args[:len(cmd.Args)-1], "-cover", "./cmd/vworker")
+		cmd.Args = append(cmd.Args[:len(cmd.Args)-1], "-cover", "-covermode=atomic", "./cmd/vworker")
 		cmd.Env = append(cmd.Env, "GOWORK="+work, "GOFLAGS=")
 	}
 	var buf bytes.Buffer
